@@ -9,7 +9,7 @@ From Coq Require Import String.
 From Coq Require Import List NArith ZArith Arith.
 Import ListNotations.
 From YP Require Import Base.Str Term.Term Unify.Unify Unify.Mgu Lang.Ast Lang.Lexer Lang.Cst Lang.Parser Lang.Unquote Lang.Literals Lang.Front
-  Comp.IR Comp.CompileBody Sem.Machine Engine.GetValue Lang.Denote.
+  Comp.IR Comp.CompileBody Sem.Machine Engine.GetValue Lang.Denote Lang.Utf8 Lang.Utf8Strict Lang.FileEntry Cli.Cli.
 
 (* quote s = ' s ' with \' for every quote in s.  For every text without backslash -- quotes, line
    breaks, any code point -- it is lexed as the single token STRING and unquoted back to s. *)
@@ -140,6 +140,54 @@ Theorem C16_atom_unify_by_name : forall n s a b,
   unify (S n) s (TAtom a) (TAtom b) = if str_eqb a b then UOk s else UFail.
 Proof. exact atom_unify_by_name. Qed.
 Print Assumptions C16_atom_unify_by_name.
+
+(* the byte layer of compile_prolog_from_file / the command line (FileStream, StdinStream: the bytes, strictly decoded as
+   UTF-8, no line-end conversion): a text of Unicode scalar values stored as UTF-8 is read back as itself ... *)
+Theorem C16_file_bytes_roundtrip : forall s, forallb is_scalar s = true -> utf8_decode (utf8_encode s) = Some s.
+Proof. exact utf8_roundtrip. Qed.
+Print Assumptions C16_file_bytes_roundtrip.
+
+(* ... so the front end reads from the file what it reads from the text: every theorem above about the literals of a
+   source text holds for the literals of the file holding its bytes (CR, CR LF, NEL, LS, PS, BOM, NUL inside atoms included) *)
+Theorem C16_file_entry_point : forall s, forallb is_scalar s = true -> front_bytes (utf8_encode s) = front s.
+Proof. exact file_entry_point. Qed.
+Print Assumptions C16_file_entry_point.
+
+(* ... different texts are different files, and the CR / LF / quote / backslash BYTES of a file are exactly the
+   CR / LF / quote / backslash characters of its text (no byte of a multi-byte character is below 128) *)
+Theorem C16_file_encoding_injective : forall s t,
+  forallb is_scalar s = true -> forallb is_scalar t = true -> utf8_encode s = utf8_encode t -> s = t.
+Proof. exact utf8_encode_injective. Qed.
+Print Assumptions C16_file_encoding_injective.
+
+(* the command line reads such a file / standard input as that text (RText s of the command-line model of C19) *)
+Theorem C16_cli_reads_text : forall s, forallb is_scalar s = true -> rd_of_bytes (utf8_encode s) = Cli.RText s.
+Proof. exact cli_reads_text. Qed.
+Print Assumptions C16_cli_reads_text.
+
+(* and the other way round: bytes that the strict decoder accepts ARE the encoding of the text it returns (shortest forms only,
+   no surrogates, nothing above U+10FFFF): the file and the text read from it determine each other *)
+Theorem C16_file_decoding_strict : forall l s, utf8_decode l = Some s -> l = utf8_encode s.
+Proof. exact utf8_decode_strict. Qed.
+Print Assumptions C16_file_decoding_strict.
+
+Theorem C16_file_ascii_bytes : forall s b, In b (utf8_encode s) -> (b < 128)%N -> In b s.
+Proof. exact utf8_ascii_bytes_are_characters. Qed.
+Print Assumptions C16_file_ascii_bytes.
+
+(* literals that print alike once the quotes are left out are different literals and denote different terms:
+   f('a,b') is f/1 of the atom named "a,b", f(a,b) is f/2; the text with CR LF in an atom, read from its bytes, keeps the CR *)
+Example C16_print_alike_distinct :
+  front (d "p(f('a,b')). q(f(a,b)). r(['x,y'], [x,y]).") =
+    Some [{| c_name := d "p"; c_args := [SFun (d "f") [SAtom (d "a,b")]]; c_body := BTrue |};
+          {| c_name := d "q"; c_args := [SFun (d "f") [SAtom (d "a"); SAtom (d "b")]]; c_body := BTrue |};
+          {| c_name := d "r"; c_args := [SList [SAtom (d "x,y")]; SList [SAtom (d "x"); SAtom (d "y")]]; c_body := BTrue |}] /\
+  sden (fun _ => TVar 0) (SFun (d "f") [SAtom (d "a,b")]) = TFun (d "f") [TAtom (d "a,b")] /\
+  sden (fun _ => TVar 0) (SFun (d "f") [SAtom (d "a"); SAtom (d "b")]) = TFun (d "f") [TAtom (d "a"); TAtom (d "b")] /\
+  front_bytes (utf8_encode (d "p('a\13;\10;b\233;\133;').")) =
+    Some [{| c_name := d "p"; c_args := [SAtom (d "a\13;\10;b\233;\133;")]; c_body := BTrue |}] /\
+  utf8_encode (d "\233;\13;") = [195; 169; 13]%N.
+Proof. repeat split; vm_compute; reflexivity. Qed.
 
 (* non-vacuity: a fact with a quoted atom containing a quote and a line break, a list pattern, a list,
    a numeral with leading zeros and two anonymous variables *)
